@@ -70,7 +70,7 @@ type profile struct {
 func profileFor(prop string) profile {
 	switch prop {
 	case "C06":
-		return profile{faults: 0, remote: 0, balance: 18, cancel: 6}
+		return profile{faults: 12, remote: 0, balance: 18, cancel: 6}
 	case "C07":
 		return profile{faults: 35, remote: 6, balance: 14, cancel: 8}
 	default: // C01
